@@ -151,7 +151,7 @@ let run_join (np : int) (ops : jop list) : string =
        let items = ref [] in
        let ne = List.length c'.jevents - List.length before.jevents in
        List.iter (function
-           | EDeliver (t, d) -> items := (int_of_nat t, 1, Printf.sprintf "d%d=%s" (int_of_nat t) (dest_s d)) :: !items
+           | JEDeliver (t, _, d) | JEDirect (t, d) -> items := (int_of_nat t, 1, Printf.sprintf "d%d=%s" (int_of_nat t) (dest_s d)) :: !items
            | _ -> ()) (take ne c'.jevents);
        List.iteri (fun j th ->
            if j <= !i && jfinished c' (nat_of_int j) && not (jfinished before (nat_of_int j)) then
@@ -187,7 +187,7 @@ let jitems before after hi =
   let items = ref [] in
   let ne = List.length after.jevents - List.length before.jevents in
   List.iter (function
-      | EDeliver (t, d) -> items := (int_of_nat t, 1, Printf.sprintf "d%d=%s" (int_of_nat t) (dest_s d)) :: !items
+      | JEDeliver (t, _, d) | JEDirect (t, d) -> items := (int_of_nat t, 1, Printf.sprintf "d%d=%s" (int_of_nat t) (dest_s d)) :: !items
       | _ -> ()) (take ne after.jevents);
   List.iteri (fun j th ->
       if j <= hi && jfinished after (nat_of_int j) && not (jfinished before (nat_of_int j)) then
